@@ -691,6 +691,18 @@ func contradicts(cs []Cond) bool {
 			}
 		}
 	}
+	// a select arm on a nil channel is never chosen: "index == k" is infeasible when arm k's channel is the nil constant
+	if r := last.Rel(); r.B != nil && r.Op == "==" {
+		a, b := r.A, r.B
+		if b.Op == "extract" {
+			a, b = b, a
+		}
+		if a.Op == "extract" && a.N == 0 && len(a.Args) == 1 && a.Args[0].Op == "select" {
+			if kv, okc := b.IntVal(); okc && kv >= 0 && int(kv) < len(a.Args[0].Args) && a.Args[0].Args[kv].IsNil() {
+				return true
+			}
+		}
+	}
 	lt, lp := stripNot(last.T, last.Pol)
 	k := lt.Key()
 	for _, c := range cs[:len(cs)-1] {
